@@ -45,8 +45,8 @@ func c13BoundLong(label string, v int64) {
 // of digit-count paths small.
 func c13BoundExt(label string, v int64) {
 	if vrt.Thorough() {
-		vrt.Assume(vrt.And(v > -1000000000, v < 1000000000))
-		vrt.Bound("abs-symbolic-decimal/duration-payload-below-10^9-in-thorough (boundary values are separate classes; text forms at full range: C12)", 9)
+		vrt.Assume(vrt.And(v > -1000000, v < 1000000))
+		vrt.Bound("abs-symbolic-decimal/duration-payload-below-10^6-in-thorough (boundary values are separate classes; text forms over 12 digits: C12)", 6)
 	} else {
 		vrt.Assume(vrt.And(v > -100000, v < 100000))
 		vrt.Bound("abs-symbolic-decimal/duration-payload-below-10^5-in-quick (boundary values are separate classes; text forms at full range: C12)", 5)
